@@ -171,6 +171,10 @@ type ExploreResult struct {
 func (e *Engine) Explore(init *State) {
 	frontier := []*State{init}
 	e.Stats.States++
+	visited := map[[16]byte][]int32{}
+	g := newStateGraph()
+	init.Node = g.add(init)
+	defer func() { e.checkLivelock(g) }()
 	for layer := 0; len(frontier) > 0; layer++ {
 		if len(frontier) > e.Stats.MaxFrontier {
 			e.Stats.MaxFrontier = len(frontier)
@@ -184,8 +188,10 @@ func (e *Engine) Explore(init *State) {
 			opts := e.enabled(st)
 			if len(opts) == 0 {
 				e.terminal(st)
+				g.terminal[st.Node] = true
 				continue
 			}
+			from := st.Node
 			states := make([]*State, len(opts))
 			for i := range opts {
 				if i == len(opts)-1 {
@@ -198,7 +204,7 @@ func (e *Engine) Explore(init *State) {
 				s := states[i]
 				if len(opts) > 1 {
 					sv := e.tb.Var(8, "s_"+itoa(layer))
-					s.PC = e.tb.And(s.PC, e.tb.Eq(sv, e.tb.Const(8, uint64(i))))
+					s.SPC = e.tb.And(s.SPC, e.tb.Eq(sv, e.tb.Const(8, uint64(i))))
 				}
 				e.applyOption(s, op, layer, i)
 				e.work = append(e.work[:0], s)
@@ -208,6 +214,7 @@ func (e *Engine) Explore(init *State) {
 					e.run(x)
 					e.Stats.Transitions++
 					if x.Dead {
+						g.terminal[from] = true // a path that ends by assumption / cut / reported violation
 						continue
 					}
 					x.Layer = layer + 1
@@ -229,10 +236,37 @@ func (e *Engine) Explore(init *State) {
 					}
 					h := e.canon(x)
 					if old, ok := table[h]; ok {
-						old.PC = e.tb.Or(old.PC, x.PC)
+						g.edge(from, old.Node)
+						if old.PC != x.PC {
+							old.PC = e.tb.Or(old.PC, x.PC)
+						}
+						old.SPC = e.tb.Or(old.SPC, x.SPC)
 						e.Stats.Merged++
 						continue
 					}
+					// seen in an earlier layer with the same data path condition: its successors are already explored
+					if pcs, ok := visited[h]; ok {
+						dup := false
+						for _, id := range pcs {
+							if id == x.PC.ID {
+								dup = true
+								break
+							}
+						}
+						if dup {
+							e.Stats.Revisits++
+							g.edge(from, g.byHash[h])
+							continue
+						}
+					}
+					visited[h] = append(visited[h], x.PC.ID)
+					if id, ok := g.byHash[h]; ok {
+						x.Node = id
+					} else {
+						x.Node = g.add(x)
+						g.byHash[h] = x.Node
+					}
+					g.edge(from, x.Node)
 					table[h] = x
 					next = append(next, x)
 					e.Stats.States++
@@ -255,9 +289,11 @@ func (e *Engine) stop() bool {
 	}
 	if !e.Cfg.Deadline.IsZero() && time.Now().After(e.Cfg.Deadline) {
 		e.inconclusive("job wall-clock limit reached")
+		e.stopped = true
 		return true
 	}
 	if len(e.Viols) >= e.Cfg.MaxViolations {
+		e.stopped = true
 		return true
 	}
 	return false
@@ -378,4 +414,70 @@ func (e *Engine) sampleWitness(st *State) {
 		fmt.Printf("WITNESS-PC %d inputs: %s\n", len(recs), strings.Join(cs, "\n     & "))
 	}
 	e.Witnesses = append(e.Witnesses, Witness{Inputs: in, Multi: st.Multi, Sched: e.schedList(st)})
+}
+
+// stateGraph records the explored transition graph (for livelock detection).
+type stateGraph struct {
+	byHash   map[[16]byte]int32
+	rev      [][]int32 // reverse edges
+	terminal []bool
+	sched    []*schedNode
+}
+
+func newStateGraph() *stateGraph { return &stateGraph{byHash: map[[16]byte]int32{}} }
+
+func (g *stateGraph) add(st *State) int32 {
+	id := int32(len(g.rev))
+	g.rev = append(g.rev, nil)
+	g.terminal = append(g.terminal, false)
+	g.sched = append(g.sched, st.Sched)
+	return id
+}
+
+func (g *stateGraph) edge(from, to int32) {
+	g.rev[to] = append(g.rev[to], from)
+}
+
+// checkLivelock reports states from which no terminal (quiescent) state is reachable: the system
+// would run forever (e.g. a loop spinning on a failing read) whatever the scheduler does.
+func (e *Engine) checkLivelock(g *stateGraph) {
+	if len(e.Incon) > 0 || e.stopped {
+		return // exploration incomplete: unreachable-terminal analysis would be unsound
+	}
+	n := len(g.rev)
+	reach := make([]bool, n)
+	var stack []int32
+	for i := 0; i < n; i++ {
+		if g.terminal[i] {
+			reach[i] = true
+			stack = append(stack, int32(i))
+		}
+	}
+	for len(stack) > 0 {
+		v := stack[len(stack)-1]
+		stack = stack[:len(stack)-1]
+		for _, u := range g.rev[v] {
+			if !reach[u] {
+				reach[u] = true
+				stack = append(stack, u)
+			}
+		}
+	}
+	for i := 0; i < n; i++ {
+		if !reach[i] {
+			if os.Getenv("GOSYM_DEBUGPC") != "" {
+				nt := 0
+				for _, t := range g.terminal {
+					if t {
+						nt++
+					}
+				}
+				fmt.Printf("LIVELOCK node %d of %d, terminals %d\n", i, n, nt)
+			}
+			st := &State{PC: e.tb.True, SPC: e.tb.True, Sched: g.sched[i], Threads: []*Thread{{}}}
+			e.reportViolation(st, "livelock", "no quiescent state is reachable from the state reached by this schedule: some goroutine runs forever", nil)
+			e.Stats.Livelocked++
+			return
+		}
+	}
 }
